@@ -375,6 +375,47 @@ theorem obs_depends_on_abs (km : Keymap) (s s' : Store) (h : abs s = abs s') (ke
   · unfold get; rw [hg]
   · unfold getattr; rw [hg]
 
+/-- one step from two stores with the same abstract map: same observation, and the two results
+again have the same abstract map -/
+theorem step_abs_congr (km : Keymap) (s s' : Store) (h : abs s = abs s') (op : Op) :
+    (stepOp km s op).2 = (stepOp km s' op).2 ∧ abs (stepOp km s op).1 = abs (stepOp km s' op).1 := by
+  cases op with
+  | set k v => exact ⟨rfl, by simp only [stepOp, abs_setitem, h]⟩
+  | getI k => exact ⟨by simp only [stepOp, (obs_depends_on_abs km s s' h k (.str "")).1], h⟩
+  | has k => exact ⟨by simp only [stepOp, (obs_depends_on_abs km s s' h k (.str "")).2.1], h⟩
+  | getD k d => exact ⟨by simp only [stepOp, (obs_depends_on_abs km s s' h k d).2.2.1], h⟩
+  | attr k => exact ⟨by simp only [stepOp, (obs_depends_on_abs km s s' h k (.str "")).2.2.2], h⟩
+  | del k =>
+    have hr : raw s k = raw s' k := congrFun h k
+    simp only [stepOp, delitem, ← hr]
+    cases raw s k with
+    | none => exact ⟨rfl, h⟩
+    | some v => exact ⟨rfl, by simp only [abs_rawDel, h]⟩
+
+/-- **History-level refinement** (unbounded length): the whole list of observable answers of ANY
+operation sequence is a function of the abstract map the sequence starts from — the insertion order
+of the concrete association list, shadowed duplicates, or how an earlier history arrived at the same
+map can never show in any later answer.  This is the "behaves like a plain mapping extended with
+the aliases" half of C15 for histories, not single operations. -/
+theorem history_depends_on_abs (km : Keymap) (ops : List Op) :
+    ∀ s s', abs s = abs s' →
+      (runOps km s ops).2 = (runOps km s' ops).2 ∧ abs (runOps km s ops).1 = abs (runOps km s' ops).1 := by
+  induction ops with
+  | nil => intro s s' h; exact ⟨rfl, h⟩
+  | cons op ops ih =>
+    intro s s' h
+    obtain ⟨ho, ha⟩ := step_abs_congr km s s' h op
+    obtain ⟨ih1, ih2⟩ := ih _ _ ha
+    simp only [runOps]
+    exact ⟨by rw [ho, ih1], ih2⟩
+
+/-- writes through two spellings of the same canonical key are indistinguishable by any later
+history (e.g. `d["guid"] = v` vs `d["id"] = v`) -/
+theorem alias_write_indistinguishable (km : Keymap) (s : Store) (a b : Key) (v : Val)
+    (hab : canon km a = canon km b) (ops : List Op) :
+    (runOps km (setitem km s a v) ops).2 = (runOps km (setitem km s b v) ops).2 :=
+  (history_depends_on_abs km ops _ _ (by simp only [abs_setitem, hab])).1
+
 /-! ### non-vacuity: concrete states meeting the hypotheses -/
 
 example : (runOps keymap [] [.set "guid" (.str "x"), .getI "id", .has "guid", .getI "guid"]).2.length = 4 := by
